@@ -67,7 +67,8 @@ func installFileStubs(ft *fileTable) {
 }
 
 // newRepo: kind 0 = in-memory, 1 = file system (CSV layer stubbed symbolically, real temp dir natively),
-// 2 = SQL over the table model of c10_sql.go (database/sql stubbed symbolically, a minimal driver natively).
+// 2 = SQL over the table model of c10_sql.go (database/sql stubbed symbolically, a minimal driver natively),
+// 3 = file system with the REAL CSV layer over a record-level virtual file system (c10_vfs.go).
 func newRepo(kind int) asset.Repository {
 	if kind == 0 {
 		return asset.NewInMemoryRepository()
@@ -75,10 +76,19 @@ func newRepo(kind int) asset.Repository {
 	if kind == 2 {
 		return newSQLRepo()
 	}
+	if kind == 3 {
+		theVFS = &vfsT{files: map[string]*vfile{}}
+		installOSStubs(theVFS)
+		repoDir = vrt.TempDir()
+		return asset.NewFileSystemRepository(repoDir)
+	}
 	ft := &fileTable{rows: map[string][]*asset.Snapshot{}}
 	installFileStubs(ft)
 	return asset.NewFileSystemRepository(vrt.TempDir())
 }
+
+// repoDir is the base directory of the file-system repository built last.
+var repoDir string
 
 func symSnap(tag string, i int) *asset.Snapshot {
 	d := vrt.Int("d"+tag, i)
@@ -100,7 +110,8 @@ func sameSnaps(label string, step int, got []*asset.Snapshot, want []*asset.Snap
 // H_C10: an operation history over two asset names against a map model.
 // code: decimal digits, one per step (least significant first): digit%5 = operation
 // (0 Append 1 snapshot, 1 Get, 2 GetSince, 3 LastDate, 4 Assets), digit/5 = asset (0 "aaa", 1 "v.cs").
-// Step 0 is preceded by an Append of two snapshots to "aaa" when seed == 1, of three to "v.cs" when seed == 2.
+// Step 0 is preceded by an Append of two snapshots to "aaa" when seed == 1, of three to "v.cs" when seed == 2,
+// by the creation of a zero-length file for "aaa" when seed == 3 (kind 3 only).
 func H_C10(kind, steps, code, seed int) {
 	repo := newRepo(kind)
 	names := []string{"aaa", "v.cs"} // the second name ends in characters of ".csv" (suffix handling)
@@ -119,6 +130,13 @@ func H_C10(kind, steps, code, seed int) {
 	}
 	if seed == 2 {
 		appendTo("v.cs", []*asset.Snapshot{symSnap("s", 0), symSnap("s", 1), symSnap("s", 2)}, 99)
+	}
+	if seed == 3 {
+		// a zero-length file for "aaa" (registered by hand, or left over from a failed
+		// append): the name is known and holds no snapshots
+		touchFile(filepath.Join(repoDir, "aaa.csv"))
+		model["aaa"] = nil
+		order = append(order, "aaa")
 	}
 	for s := 0; s < steps; s++ {
 		digit := code % 10
